@@ -4,7 +4,7 @@ import os, binascii, tempfile
 from . import common
 from .grammar import Grammar
 
-VT = {'V': 'vf::V', 'W': 'vf::W', 'I': 'long', 'M': 'vf::MV'}
+VT = {'V': 'vf::V', 'W': 'vf::W', 'I': 'long', 'M': 'vf::MV', 'B': 'vf::Bag'}
 
 def cchar(ch):
     o = ord(ch)
@@ -86,6 +86,8 @@ def emit_one(g, gi, runtime_ctor=False, limits=None, extra_decl=''):
         elif r.ftor == 'd': pass
         elif r.ftor[0] == 'e' and r.ftor[1:].isdigit(): txt += ' >= _' + r.ftor
         elif r.ftor[0] == 'c' and r.ftor[1:] in VT: txt += ' >= vf::R<%d, %s>{}' % (ri, VT[r.ftor[1:]])
+        elif r.ftor == 'nb': txt += ' >= create<vf::Bag>{}'
+        elif r.ftor[:2] in ('pb', 'eb'): txt += ' >= %s<%s>{}' % ('push_back' if r.ftor[:2] == 'pb' else 'emplace_back', r.ftor[2:])
         else: txt += ' >= ' + r.ftor      # literal C++ functor expression (helper functors)
         if post: txt = '(%s)[%d]' % (txt, r.prec)
         rules.append(txt)
